@@ -78,6 +78,25 @@ def run(chk):
             case, _ = asmcheck.build_case(s, dict(BASE, win_end=14), pretty=fmt)
             cases.append(case)
             tags.append(('asm', json.dumps(s['prog']), fmt))
+    # vocabularies whose names are prefixes / dotted extensions of one another: any iteration over a set of names shows here
+    from harness import isagen
+    for variant in range(3 if quick else 8):
+        mn = [['ld', 'ld.b', 'b', 'bx'], ['b', 'bx', 'ld.b', 'ld'], ['mov', 'mov.w', 'w', 'mo'], ['st', 'st.x', 'x', 'st.x.y'],
+              ['a1', 'a1.b2', 'b2', 'a'], ['jp', 'jp.nz', 'nz', 'z'], ['in', 'in.a', 'out', 'out.a'], ['c', 'c.c', 'c.c.c', 'cc']][variant]
+        keys = {'pa': 1, 'pa.dir': 2, 'pb': 3, 'pb.dir': 4, 'p': 5} if variant % 2 == 0 else {'x.y': 1, 'x': 2, 'x.y.z': 3, 'y': 4}
+        cfg = {'description': 'vocabulary', 'general': isagen.base_general('big', registers=['ra', 'rab', 'r']),
+               'operand_sets': {'en': {'operand_values': {'e': {'type': 'enumeration', 'bytecode': {'size': 8, 'value_dict': dict(keys)},
+                                                                 'argument': {'size': 8, 'byte_align': True, 'value_dict': dict(keys)}}}},
+                                'rg': {'operand_values': {'r1': {'type': 'register', 'register': 'ra', 'bytecode': {'value': 1, 'size': 8}},
+                                                          'r2': {'type': 'register', 'register': 'rab', 'bytecode': {'value': 2, 'size': 8}},
+                                                          'r3': {'type': 'register', 'register': 'r', 'bytecode': {'value': 3, 'size': 8}}}}},
+               'instructions': {m: {'bytecode': {'value': 16 + i, 'size': 8}} for i, m in enumerate(mn)}}
+        cfg['instructions']['en'] = {'bytecode': {'value': 0xE0, 'size': 8}, 'operands': {'count': 1, 'operand_sets': {'list': ['en']}}}
+        cfg['instructions']['rg'] = {'bytecode': {'value': 0xF0, 'size': 8}, 'operands': {'count': 1, 'operand_sets': {'list': ['rg']}}}
+        src = ''.join(m + '\n' for m in mn) + ' '.join(mn) + '\n' + ''.join(f'en {k}\n' for k in keys) + 'rg ra\nrg rab\nrg r\n'
+        for fmt in FORMATS:
+            cases.append({'config': isagen.dump(cfg), 'files': {'main.asm': src}, 'pretty': fmt})
+            tags.append(('vocabulary', json.dumps({'mnemonics': mn, 'keys': list(keys)}), fmt))
     # repository programs (absolute paths: run in place, include dir = their directory)
     ncorp = 0
     for cfg, src, inc in corpus.corpus_programs():
